@@ -1,7 +1,20 @@
-from sa import opcat, rules_template as T
+"""C17 - backward scales to deep graphs; untracked computations keep no history."""
+from sa import opcat, rules_template as T, rules_engine as E
+
+
 def check(model, R, tier):
     ops, problems = opcat.catalogue(model)
     for q, why in problems:
-        R.incomplete_at('C17.PROP', q, why)
-    T.check_prop_attach(model, R, ops, 'C17')
-    return dict(explanation='x', assumptions=[], technique='x')
+        R.incomplete_at('C17.NOHISTORY', q, why)
+    B = E.check_topo(model, R, 'C17')
+    E.check_norecurse(model, R, 'C17', B)
+    E.check_once(model, R, 'C17', B)
+    E.check_visited_is_set(model, R, 'C17', B)
+    E.check_nohistory(model, R, 'C17', ops)
+    E.check_release_predicate(model, R, 'C17', B)
+    return dict(
+        explanation='Decides: no function on the call graph of Tensor.backward is recursive (depth is not bounded by the interpreter stack); each recorded op is invoked once from one '
+                    'call site and the traversal does O(1) work per edge (set membership); results that do not require grad store no children and backward closures escape only through the '
+                    'guarded grad_fn attach; intermediate gradients are released after the sweep. Actual time/memory is not measured.',
+        assumptions=['CPython recursion limit applies to Python-level recursion only'],
+        technique='call-graph cycle detection + traversal idiom recognition + escape analysis of closures')
